@@ -310,7 +310,24 @@ def _result_objects(seed):
         with np.errstate(all='ignore'):
             from rsatoolbox.model.fitter import fit_regress, fit_mock
             return I.crossval(models(), d, tr, te, ceil_set=ce, fitter=[fit_mock, fit_regress])
+    def many():
+        # more than 10 models: HDF5 groups come back in alphabetical order (model_10 < model_2)
+        g = rng_for(seed, 'c16many')
+        ms = [M.ModelFixed('fx%d' % i, RDMs(np.round(g.uniform(0.5, 3, size=(1, 15)), 3),
+                                            pattern_descriptors={'name': list(names)})) for i in range(12)]
+        return I.eval_fixed(ms, data())
+
+    def wide():
+        # more RDMs than conditions: the n/(n-1) correction then depends on which of n_rdm / n_pattern is used
+        g = rng_for(seed, 'c16wide')
+        nm = ['q%d' % i for i in range(4)]
+        d = RDMs(np.round(g.uniform(0.5, 3, size=(8, 6)), 3), pattern_descriptors={'name': list(nm)})
+        ms = [M.ModelFixed('a', RDMs(np.round(g.uniform(0.5, 3, size=(1, 6)), 3), pattern_descriptors={'name': list(nm)})),
+              M.ModelFixed('b', RDMs(np.round(g.uniform(0.5, 3, size=(1, 6)), 3), pattern_descriptors={'name': list(nm)}))]
+        return I.eval_fixed(ms, d)
     return [('result:fixed', 'result', lambda: I.eval_fixed(models(), data(), theta=[None, np.array([1.0, 0.5])])),
+            ('result:fixed-12-models', 'result', many),
+            ('result:fixed-more-rdms-than-conditions', 'result', wide),
             ('result:bootstrap_rdm', 'result', boot),
             ('result:crossval', 'result', cv)]
 
